@@ -27,6 +27,11 @@ func init() {
 const bsChainstoreFile = "internal/chain/beacon/chainstore.go"
 const bsPublicFile = "internal/core/drand_beacon_public.go"
 
+func bsBreak(pf *pkgFile, n ast.Node, format string, a ...interface{}) error {
+	pos := pf.fset.Position(n.Pos())
+	return fmt.Errorf("T-break: %s:%d: %s", pf.path, pos.Line, fmt.Sprintf(format, a...))
+}
+
 func bsFindFunc(pf *pkgFile, name string) *ast.FuncDecl {
 	for _, d := range pf.file.Decls {
 		if fd, ok := d.(*ast.FuncDecl); ok && fd.Name.Name == name {
@@ -122,9 +127,9 @@ func genAggWindow(repo string) (string, error) {
 		return "", err
 	}
 	if c, ok := pr.Rhs[0].(*ast.CallExpr); !ok || len(c.Args) != 0 {
-		return "", tbreak(pf, pr, "pRound is not partial.p.GetRound()")
+		return "", bsBreak(pf, pr, "pRound is not partial.p.GetRound()")
 	} else if s, ok := c.Fun.(*ast.SelectorExpr); !ok || s.Sel.Name != "GetRound" || !bsIsSel(s.X, "partial", "p") {
-		return "", tbreak(pf, pr, "pRound is not partial.p.GetRound()")
+		return "", bsBreak(pf, pr, "pRound is not partial.p.GetRound()")
 	}
 	// isNotInPast := pRound > lastBeacon.Round
 	lo, err := one("isNotInPast")
@@ -133,7 +138,7 @@ func genAggWindow(repo string) (string, error) {
 	}
 	lb, ok := lo.Rhs[0].(*ast.BinaryExpr)
 	if !ok {
-		return "", tbreak(pf, lo, "isNotInPast is not a comparison")
+		return "", bsBreak(pf, lo, "isNotInPast is not a comparison")
 	}
 	var lowerStrict bool
 	switch {
@@ -146,7 +151,7 @@ func genAggWindow(repo string) (string, error) {
 	case lb.Op == token.LEQ && bsIsIdent(lb.Y, "pRound") && bsIsSel(lb.X, "lastBeacon", "Round"):
 		lowerStrict = false
 	default:
-		return "", tbreak(pf, lo, "isNotInPast is not `pRound > lastBeacon.Round` (or >=)")
+		return "", bsBreak(pf, lo, "isNotInPast is not `pRound > lastBeacon.Round` (or >=)")
 	}
 	// isNotTooFar := pRound <= lastBeacon.Round+partialCacheStoreLimit+1
 	up, err := one("isNotTooFar")
@@ -155,11 +160,11 @@ func genAggWindow(repo string) (string, error) {
 	}
 	ub, ok := up.Rhs[0].(*ast.BinaryExpr)
 	if !ok || !bsIsIdent(ub.X, "pRound") || (ub.Op != token.LEQ && ub.Op != token.LSS) {
-		return "", tbreak(pf, up, "isNotTooFar is not `pRound <= ...` (or <)")
+		return "", bsBreak(pf, up, "isNotTooFar is not `pRound <= ...` (or <)")
 	}
 	terms, ok := bsSumTerms(ub.Y)
 	if !ok {
-		return "", tbreak(pf, up, "upper bound of the store window is not a sum")
+		return "", bsBreak(pf, up, "upper bound of the store window is not a sum")
 	}
 	nHead, nLimit, extra := 0, 0, int64(0)
 	for _, t := range terms {
@@ -171,16 +176,16 @@ func genAggWindow(repo string) (string, error) {
 		default:
 			v, err := pf.eval(t, 0)
 			if err != nil || !v.IsInt64() {
-				return "", tbreak(pf, up, "unrecognised term in the upper bound of the store window")
+				return "", bsBreak(pf, up, "unrecognised term in the upper bound of the store window")
 			}
 			if _, isLit := t.(*ast.BasicLit); !isLit {
-				return "", tbreak(pf, up, "unrecognised term in the upper bound of the store window")
+				return "", bsBreak(pf, up, "unrecognised term in the upper bound of the store window")
 			}
 			extra += v.Int64()
 		}
 	}
 	if nHead != 1 || nLimit != 1 {
-		return "", tbreak(pf, up, "upper bound is not lastBeacon.Round + partialCacheStoreLimit + <literal>")
+		return "", bsBreak(pf, up, "upper bound is not lastBeacon.Round + partialCacheStoreLimit + <literal>")
 	}
 	// shouldStore := isNotInPast && isNotTooFar
 	ss, err := one("shouldStore")
@@ -190,7 +195,7 @@ func genAggWindow(repo string) (string, error) {
 	sb, ok := ss.Rhs[0].(*ast.BinaryExpr)
 	if !ok || sb.Op != token.LAND ||
 		!((bsIsIdent(sb.X, "isNotInPast") && bsIsIdent(sb.Y, "isNotTooFar")) || (bsIsIdent(sb.Y, "isNotInPast") && bsIsIdent(sb.X, "isNotTooFar"))) {
-		return "", tbreak(pf, ss, "shouldStore is not isNotInPast && isNotTooFar")
+		return "", bsBreak(pf, ss, "shouldStore is not isNotInPast && isNotTooFar")
 	}
 	// if !shouldStore { ...; break } must come before the only cache.Append call
 	var guardPos, appendPos token.Pos
